@@ -81,6 +81,9 @@ def gen(t, tier):
         n = t.weighted([(1, 3), (2, 1), (3, 1), (5, 1)])
         sc['victim'] = ['store', [[c, _payload_spec(t, link)] for c in _distinct(t, pool, n)]]
         sc['pool'] = _uniq(pool)
+        # the tiles of the victim store come as image files (what a cache used as the source of this cache hands over), not
+        # as images in memory
+        sc['filesrc'] = bool(t.chance(0.25))
     elif typ == 'legend':
         ids = ['http://a/?l1', 'http://a/?l2']
         for _ in range(t.randint(0, 3)):
@@ -161,9 +164,13 @@ class Store(object):
             from mapproxy.cache.legend import LegendCache
             self.cache = LegendCache(C.CACHE_DIR + '/legends', 'png')
 
-    def store(self, items):
+    def store(self, items, filesrc=None):
         if self.typ in ('file', 'compact'):
             tiles = [C.make_tile(c, C.payload(s)) for c, s in items]
+            if filesrc:
+                from mapproxy.image import ImageSource
+                for i, t_ in enumerate(tiles):
+                    t_.source = ImageSource('%s/%d.png' % (filesrc, i))
             if len(tiles) == 1:
                 self.cache.store_tile(tiles[0])
             else:
@@ -252,11 +259,18 @@ def run(sc, tape):
                 return _result(sc, {'sig': 'C06:baseline-mismatch:%s' % C.backend_name(b),
                                     'msg': 'before any crash: %r holds %s, expected %s' % (
                                         k, C.describe(got), C.describe(exp))}, [], 0, 0, {})
+        filesrc = None
+        if sc.get('filesrc') and typ in ('file', 'compact'):
+            filesrc = '/simfs/src'
+            os.makedirs(filesrc)
+            for i, (k, s) in enumerate(sc['victim'][1]):
+                with open('%s/%d.png' % (filesrc, i), 'wb') as f:
+                    f.write(C.payload(s))
         snap = w.fs.snapshot()
         clock.now += 0.5
         w.fs.start_journal()
         st = Store(b)
-        st.store(sc['victim'][1])
+        st.store(sc['victim'][1], filesrc)
         journal = w.fs.stop_journal()
 
     victim = dict((_key(k), (_value(typ, s), s)) for k, s in sc['victim'][1])
